@@ -1050,6 +1050,12 @@ class Unit:
         if len(cands) != 1:
             raise ExtractError("anchor lost: fn %s :: %s :: %s (%d candidates)" % (rel, ctx, name, len(cands)))
         it = cands[0]
+        sig_override = None
+        if opts.get("closure"):
+            # R26: the N-th block closure `|params| { .. }` of the function is put under contract as a function of its
+            # own: the body is the closure's block, verbatim; the signature (closures have none) comes from `//@sig`
+            it = self.closure_item(f, it, int(opts["closure"]), name)
+            name = opts.get("as", "%s_closure%s" % (name, opts["closure"]))
         fn_log = {}
         rw = Rewriter(fn_log, self.tags)
         rw.noabort = bool(opts.get("noabort"))
@@ -1072,6 +1078,8 @@ class Unit:
                 cur = ("proof", len(proofs) - 1)
             elif s.startswith("//@sigsub"):
                 sigsubs.append(parse_map(s[len("//@sigsub"):], relaxed=True))
+            elif s.startswith("//@sig "):
+                sig_override = s[len("//@sig "):].strip()
             elif s.startswith("//@sub"):
                 subs.append(parse_map(s[len("//@sub"):], relaxed=True))
             elif s.startswith("//@"):
@@ -1095,6 +1103,11 @@ class Unit:
                 raise ExtractError("anchor lost: //@sigsub /%s/ in %s" % (rx.pattern, name))
             rw.count("MANUAL sigsub /%s/ => %s" % (rx.pattern, repl), nsub)
         sig = self.name_return(sig, ret)
+        if opts.get("closure"):
+            if not sig_override:
+                raise ExtractError("closure= needs a //@sig line in %s" % name)
+            sig = sig_override
+            rw.count("R26 closure body lifted into a function (signature from the template, body verbatim)")
         mut_self = False
         if re.search(r"\(\s*mut\s+self\b", sig):
             # R12: Verus has no `mut self` receiver: bind it to a local instead
@@ -1336,6 +1349,50 @@ class Unit:
         for k, v in fn_log.items():
             self.log[k] = self.log.get(k, 0) + v
         self.fns.append(meta)
+
+    @staticmethod
+    def closure_item(f, it, nth, name):
+        """locate the nth block closure inside function item `it` of RustFile f; returns an Item-like object"""
+        toks = f.toks
+        tr = getattr(it, "toks_range", None)
+        lo, hi = (tr[0], tr[-1] + 1) if tr else (0, len(toks))
+        found = []
+        k = lo
+        while k < hi:
+            t = toks[k]
+            if t.kind == "punct" and t.text == "|" and t.start >= it.body_open:
+                # previous code token must open an argument position
+                b = k - 1
+                while b >= lo and toks[b].kind in ("ws", "comment"):
+                    b -= 1
+                if b >= lo and toks[b].kind == "punct" and toks[b].text in "(,=":
+                    j = k + 1
+                    depth = 0
+                    while j < hi and not (toks[j].kind == "punct" and toks[j].text == "|" and depth == 0):
+                        if toks[j].kind == "punct" and toks[j].text in "([":
+                            depth += 1
+                        elif toks[j].kind == "punct" and toks[j].text in ")]":
+                            depth -= 1
+                        j += 1
+                    c = j + 1
+                    while c < hi and toks[c].kind in ("ws", "comment"):
+                        c += 1
+                    if c < hi and toks[c].kind == "punct" and toks[c].text == "{":
+                        e = match_close(toks, c)
+                        found.append((toks[c].start, toks[e].end))
+                        k = c + 1
+                        continue
+                    k = j
+            k += 1
+        if len(found) < nth:
+            raise ExtractError("anchor lost: closure #%d of %s (%d block closures found)" % (nth, name, len(found)))
+
+        class _It:
+            pass
+        o = _It()
+        o.start, o.body_open, o.end = found[nth - 1][0], found[nth - 1][0], found[nth - 1][1]
+        o.kind, o.name = "fn", name
+        return o
 
     @staticmethod
     def name_return(sig, ret):
